@@ -30,6 +30,13 @@ def section():
     out.append("def cpfItemTypes : List Nat := [" + ", ".join(map(str, sorted(parser.CPF.ITEM_PARSERS))) + "]")
     out.append(f"def cpfUnconnected : Nat := {items['unconnected_send']}")
     out.append(f"def cmClass : Nat := {device.Connection_Manager.class_id}")
+    CM = device.Connection_Manager
+    out.append(f"def svcFwdOpen : Nat := {CM.FWD_OPEN_REQ}")
+    out.append(f"def svcFwdOpenLarge : Nat := {CM.FWD_OPLG_REQ}")
+    out.append(f"def svcFwdClose : Nat := {CM.FWD_CLOS_REQ}")
+    from cpppo.server.enip import defaults
+    out.append(f"def connTypeP2P : Nat := {defaults.Connection.TYPE_P2P}")
+    out.append(f"def connTypeMC : Nat := {defaults.Connection.TYPE_MC}")
 
     saved_dir, saved_sym, saved_ucmm = device.directory, device.symbol, logix.setup.ucmm
     saved_sessions = dict(ucmm.UCMM.sessions)
@@ -82,6 +89,14 @@ def section():
         proceed, data = process(hdr(by_name["send_data"][0], bad))
         assert proceed and "input" not in data.response.enip
         out.append(f"def failStatusDefault : Nat := {data.response.enip.status}")
+        # the status given to a request larger than the configured size limit: a Register Session under size=1
+        data = cpppo.dotdict()
+        with parser.enip_machine(context="enip") as machine:
+            for _m, _s in machine.run(path="request", source=cpppo.peekable(hdr(by_name["register"][0], b"\x01\x00\x00\x00")), data=data):
+                pass
+        proceed = logix.process(("127.0.0.1", 1), data=data, size=1)
+        assert proceed and "input" not in data.response.enip and data.response.enip.status, repr(data.response.enip)
+        out.append(f"def sizeFailStatus : Nat := {data.response.enip.status}")
         # the status left by a routed request that fails: a routing table entry leading to a closed port
         logix.setup_reset()
         dead = type("UCMM_dead_route", (ucmm.UCMM,), {"route": {"1/9": "127.0.0.1:1"}})
